@@ -252,12 +252,27 @@ void Client::drain()
     }
 }
 
+void Client::chatter_tick()
+{
+    if (st.finished || st.closed_by_us || st.reset || !sock || chatter_count <= 0) return;
+    chatter_count--;
+    size_t n = sock->send(chatter_data.data(), chatter_data.size());
+    st.bytes_sent += n;
+    auto self = shared_from_this();
+    sim::schedule_in(chatter_ns, [self] { self->chatter_tick(); }, "client.chatter");
+}
+
 void Client::on_event(uint32_t ev)
 {
     using simk::ActorSock;
     if (ev & ActorSock::Connected) {
         st.connected = true;
         st.connected_at = sim::now_ns();
+        if (chatter_ns > 0 && chatter_count > 0 && !chatter_started) {
+            chatter_started = true;
+            auto self = shared_from_this();
+            sim::schedule_in(chatter_ns, [self] { self->chatter_tick(); }, "client.chatter");
+        }
     }
     if (ev & ActorSock::Refused) st.refused = true;
     if (ev & (ActorSock::Readable | ActorSock::PeerFin)) drain();
